@@ -14,9 +14,16 @@
 (*        (the repaired code: s.lastDone).  A call with n = realCapacity is an ordinary call.    *)
 (*   pkg/util/limitlistener.LimitListener   Accept = acquire one slot, then Accept on the inner  *)
 (*        listener (slot given back on error / after the listener was closed);                   *)
-(*        limitListenerConn.Close releases exactly once (sync.Once).                             *)
+(*        limitListenerConn.Close releases exactly once (sync.Once) - also when two Close calls   *)
+(*        on the same connection overlap (net/http closes a connection from several goroutines:  *)
+(*        the serving goroutine, Shutdown / closeIdleConns, a hijacker): both are inside the      *)
+(*        close of the underlying connection, the first to come out releases, the other does not  *)
+(*        (CloseBoth / CloseFirstOut / CloseSecondOut).                                           *)
 (*   pkg/object/httpserver.runtime          reload -> SetMaxConnection(spec.MaxConnections);     *)
-(*        net/http's Serve loop is the (single) acceptor.                                        *)
+(*        net/http's Serve loop is the (single) acceptor.  A reload that changes a restart-       *)
+(*        relevant option (port, keepAliveTimeout, ...) shuts the server down and starts a new    *)
+(*        one: a NEW LimitListener with the cap of the new spec (Restart); run-time changes made   *)
+(*        before the restart have no bearing on it, run-time changes made after it apply to it.   *)
 (*                                                                                              *)
 (* A connection whose peer has finished its stream (EOF / half-close) stays open, and keeps its   *)
 (* slot, until its handler calls Close (PeerEOF / CloseConn).                                     *)
@@ -39,6 +46,8 @@ CONSTANTS Size,        \* size of the weighted semaphore (maxCapacity)
           MaxResize,   \* number of SetMaxCount calls
           MaxDial,     \* number of clients that ever dial
           MaxErr,      \* number of errors injected into the inner listener's Accept
+          MaxDbl,      \* number of connections that are closed by two overlapping Close calls
+          MaxRestart,  \* number of restarting reloads (a new listener replaces the old one)
           Ordered      \* FALSE: the pinned code.  TRUE: tuners run in request order (repair)
 
 ASSUME /\ \A c \in Caps \cup InitCaps : c >= 0 /\ c <= Size
@@ -55,13 +64,20 @@ VARIABLES cur, waiters,        \* Weighted: tokens taken; FIFO of [n |-> weight,
           open,                \* accepted connections not closed yet (each holds one token)
           eof,                 \* how many of them have seen the peer finish (EOF / half-close) but are still
                                \* held open by their handler: they keep their slot until Close is called
+          c2,                  \* connections with two Close calls inside the close of the underlying
+                               \* connection, slot not given back yet
+          cr,                  \* connections whose slot was given back by the first of two overlapping Close
+                               \* calls while the second call is still in progress
           dialed, errs,        \* bounds
+          dbl, restarts,       \* bounds
           last                 \* description of the step just taken (observation; not in VIEW)
 
-vars == <<cur, waiters, realCap, initCap, req, tst, td, acc, lclosed, backlog, open, eof, dialed, errs, last>>
-view == <<cur, waiters, realCap, initCap, req, tst, td, acc, lclosed, backlog, open, eof, dialed, errs>>
+vars == <<cur, waiters, realCap, initCap, req, tst, td, acc, lclosed, backlog, open, eof, c2, cr, dialed, errs, dbl, restarts, last>>
+view == <<cur, waiters, realCap, initCap, req, tst, td, acc, lclosed, backlog, open, eof, c2, cr, dialed, errs, dbl, restarts>>
 
 Tuners == 1..MaxResize
+
+xv == <<c2, cr, dbl, restarts>>     \* overlapping-close / restart state, untouched by most actions
 
 (* ---------------- contract, under the refinement mapping ---------------- *)
 C == INSTANCE ConnCapContract WITH applied <- {i \in 1..Len(req) : tst[i] = "done"},
@@ -91,6 +107,7 @@ Init ==
     /\ realCap = initCap /\ req = <<>>
     /\ tst = [i \in Tuners |-> "none"] /\ td = [i \in Tuners |-> 0]
     /\ acc = "idle" /\ lclosed = FALSE /\ backlog = 0 /\ open = 0 /\ eof = 0 /\ dialed = 0 /\ errs = 0
+    /\ c2 = 0 /\ cr = 0 /\ dbl = 0 /\ restarts = 0
     /\ last = [a |-> "init", cap |-> initCap]
 
 (* ---------------- clients ---------------- *)
@@ -98,7 +115,7 @@ Dial ==
     /\ dialed < MaxDial /\ ~lclosed
     /\ backlog' = backlog + 1 /\ dialed' = dialed + 1
     /\ last' = [a |-> "dial"]
-    /\ UNCHANGED <<cur, waiters, realCap, initCap, req, tst, td, acc, lclosed, open, eof, errs>>
+    /\ UNCHANGED <<cur, waiters, realCap, initCap, req, tst, td, acc, lclosed, open, eof, errs, xv>>
 
 (* the peer finishes its stream (hangs up / half-closes): the handler's Read returns EOF, but the *)
 (* connection stays open - and keeps its slot - until the handler calls Close                    *)
@@ -106,7 +123,7 @@ PeerEOF ==
     /\ eof < open
     /\ eof' = eof + 1
     /\ last' = [a |-> "eof"]
-    /\ UNCHANGED <<cur, waiters, realCap, initCap, req, tst, td, acc, lclosed, backlog, open, dialed, errs>>
+    /\ UNCHANGED <<cur, waiters, realCap, initCap, req, tst, td, acc, lclosed, backlog, open, dialed, errs, xv>>
 
 (* limitListenerConn.Close (first call): closes the connection, releaseOnce.Do(release); either a *)
 (* connection whose peer is still there or one that has seen EOF                                 *)
@@ -118,7 +135,35 @@ CloseConn ==
          /\ IF lingering THEN eof > 0 ELSE open > eof
          /\ eof' = IF lingering THEN eof - 1 ELSE eof
          /\ last' = [a |-> "close", eof |-> lingering]
-    /\ UNCHANGED <<realCap, initCap, req, td, lclosed, backlog, dialed, errs>>
+    /\ UNCHANGED <<realCap, initCap, req, td, lclosed, backlog, dialed, errs, xv>>
+
+(* Two overlapping Close calls on one connection (e.g. net/http's serving goroutine and Shutdown): *)
+(* both have entered limitListenerConn.Close and are inside the close of the underlying connection *)
+(* (which may take a while: linger, a blocked descriptor, a wrapped connection).  The connection is  *)
+(* over for the client from here on (the contract's `open` goes down); its slot is still taken.      *)
+CloseBoth ==
+    /\ open > 0 /\ dbl < MaxDbl
+    /\ open' = open - 1 /\ c2' = c2 + 1 /\ dbl' = dbl + 1
+    /\ \E lingering \in BOOLEAN :
+         /\ IF lingering THEN eof > 0 ELSE open > eof
+         /\ eof' = IF lingering THEN eof - 1 ELSE eof
+         /\ last' = [a |-> "close2", eof |-> lingering]
+    /\ UNCHANGED <<cur, waiters, realCap, initCap, req, tst, td, acc, lclosed, backlog, dialed, errs, cr, restarts>>
+
+(* the first of the two comes out of the underlying close: releaseOnce.Do(release) gives the slot back *)
+CloseFirstOut ==
+    /\ c2 > 0
+    /\ Release(1)
+    /\ c2' = c2 - 1 /\ cr' = cr + 1
+    /\ last' = [a |-> "crel"]
+    /\ UNCHANGED <<realCap, initCap, req, td, lclosed, backlog, open, eof, dialed, errs, dbl, restarts>>
+
+(* the second one comes out: the Once has fired, nothing is released *)
+CloseSecondOut ==
+    /\ cr > 0
+    /\ cr' = cr - 1
+    /\ last' = [a |-> "cnop"]
+    /\ UNCHANGED <<cur, waiters, realCap, initCap, req, tst, td, acc, lclosed, backlog, open, eof, dialed, errs, c2, dbl, restarts>>
 
 (* ---------------- acceptor: LimitListener.Accept ---------------- *)
 (* l.acquire(): Weighted.Acquire(ctx, 1): fast path or queue at the tail *)
@@ -128,14 +173,14 @@ AccAcquire ==
        THEN cur' = cur + 1 /\ acc' = "have" /\ UNCHANGED waiters
        ELSE waiters' = Append(waiters, [n |-> 1, who |-> 0]) /\ acc' = "waiting" /\ UNCHANGED cur
     /\ last' = [a |-> "acq", blocks |-> ~CanTake(1)]
-    /\ UNCHANGED <<realCap, initCap, req, tst, td, lclosed, backlog, open, eof, dialed, errs>>
+    /\ UNCHANGED <<realCap, initCap, req, tst, td, lclosed, backlog, open, eof, dialed, errs, xv>>
 
 (* inner Accept returns a connection: it is wrapped and handed to the server *)
 AccAccept ==
     /\ acc = "have" /\ backlog > 0 /\ ~lclosed
     /\ acc' = "idle" /\ backlog' = backlog - 1 /\ open' = open + 1
     /\ last' = [a |-> "accept", open |-> open, ok |-> open < C!MaxOf(C!CapsInEffect)]
-    /\ UNCHANGED <<cur, waiters, realCap, initCap, req, tst, td, lclosed, eof, dialed, errs>>
+    /\ UNCHANGED <<cur, waiters, realCap, initCap, req, tst, td, lclosed, eof, dialed, errs, xv>>
 
 (* inner Accept fails (e.g. EMFILE): the slot is given back *)
 AccError ==
@@ -145,14 +190,14 @@ AccError ==
          /\ acc' = "idle"                               \* the acceptor itself cannot be queued here
     /\ errs' = errs + 1
     /\ last' = [a |-> "err"]
-    /\ UNCHANGED <<realCap, initCap, req, td, lclosed, backlog, open, eof, dialed>>
+    /\ UNCHANGED <<realCap, initCap, req, td, lclosed, backlog, open, eof, dialed, xv>>
 
 (* LimitListener.Close: inner listener closed, context cancelled *)
 LClose ==
     /\ ~lclosed /\ lclosed' = TRUE
     /\ acc' = IF acc = "idle" THEN "stopped" ELSE acc   \* an Accept that starts now fails without a net effect
     /\ last' = [a |-> "lclose"]
-    /\ UNCHANGED <<cur, waiters, realCap, initCap, req, tst, td, backlog, open, eof, dialed, errs>>
+    /\ UNCHANGED <<cur, waiters, realCap, initCap, req, tst, td, backlog, open, eof, dialed, errs, xv>>
 
 (* the queued Acquire sees ctx.Done: removes itself; if it was the front waiter and tokens are *)
 (* left the others are notified                                                                *)
@@ -164,7 +209,7 @@ AccCancel ==
        IN /\ cur' = r.cur /\ waiters' = r.w /\ tst' = TstAfter(r, tst)
     /\ acc' = "stopped"
     /\ last' = [a |-> "acancel"]
-    /\ UNCHANGED <<realCap, initCap, req, td, lclosed, backlog, open, eof, dialed, errs>>
+    /\ UNCHANGED <<realCap, initCap, req, td, lclosed, backlog, open, eof, dialed, errs, xv>>
 
 (* the acceptor holds a slot when the listener is closed: ctx.Err() / inner Accept error -> release *)
 AccAbort ==
@@ -173,7 +218,7 @@ AccAbort ==
          /\ cur' = r.cur /\ waiters' = r.w /\ tst' = TstAfter(r, tst)
     /\ acc' = "stopped"
     /\ last' = [a |-> "aabort"]
-    /\ UNCHANGED <<realCap, initCap, req, td, lclosed, backlog, open, eof, dialed, errs>>
+    /\ UNCHANGED <<realCap, initCap, req, td, lclosed, backlog, open, eof, dialed, errs, xv>>
 
 (* ---------------- Semaphore.SetMaxCount ---------------- *)
 (* synchronous part: old := realCapacity; realCapacity = n (under s.lock); go tuner.             *)
@@ -197,7 +242,7 @@ SetMax(n) ==
                      usage |-> open + (IF acc = "have" THEN 1 ELSE 0),
                      pend |-> Cardinality({j \in 1..Len(req) : tst[j] # "done"})]
     /\ realCap' = n
-    /\ UNCHANGED <<cur, waiters, initCap, acc, lclosed, backlog, open, eof, dialed, errs>>
+    /\ UNCHANGED <<cur, waiters, initCap, acc, lclosed, backlog, open, eof, dialed, errs, xv>>
 
 (* the goroutine: Release(n-old) / Acquire(old-n) on the Weighted *)
 TunerRun(i) ==
@@ -216,18 +261,35 @@ TunerRun(i) ==
           /\ waiters' = Append(waiters, [n |-> -td[i], who |-> i]) /\ tst' = [tst EXCEPT ![i] = "waiting"]
           /\ last' = [a |-> "tuner", i |-> i, d |-> td[i], blocks |-> TRUE]
           /\ UNCHANGED <<cur, acc>>
-    /\ UNCHANGED <<realCap, initCap, req, td, lclosed, backlog, open, eof, dialed, errs>>
+    /\ UNCHANGED <<realCap, initCap, req, td, lclosed, backlog, open, eof, dialed, errs, xv>>
 
 (* close(done): from now on the change counts as applied *)
 TunerDone(i) ==
     /\ tst[i] = "adjusted"
     /\ tst' = [tst EXCEPT ![i] = "done"]
     /\ last' = [a |-> "tdone", i |-> i]
-    /\ UNCHANGED <<cur, waiters, realCap, initCap, req, td, acc, lclosed, backlog, open, eof, dialed, errs>>
+    /\ UNCHANGED <<cur, waiters, realCap, initCap, req, td, acc, lclosed, backlog, open, eof, dialed, errs, xv>>
+
+(* ---------------- runtime.reload with a restart-relevant change ---------------- *)
+(* SetMaxConnection(n) on the old listener (of no consequence any more), closeServer (Shutdown: the *)
+(* listener is closed, the Serve loop ends, idle connections are closed, active ones are waited     *)
+(* for), startServer: a new Weighted pre-acquired down to n, a new Serve loop.  The model restarts  *)
+(* only once every connection of the old server has ended (the harness hangs up first); clients     *)
+(* still queued on the old listener are lost.  The cap history starts afresh: the cap of the new    *)
+(* listener is n whatever was requested at run time before, and later run-time changes act on it.   *)
+Restart(n) ==
+    /\ restarts < MaxRestart
+    /\ open = 0 /\ c2 = 0 /\ cr = 0
+    /\ restarts' = restarts + 1
+    /\ initCap' = n /\ realCap' = n /\ cur' = Size - n /\ waiters' = <<>>
+    /\ req' = <<>> /\ tst' = [i \in Tuners |-> "none"] /\ td' = [i \in Tuners |-> 0]
+    /\ acc' = "idle" /\ lclosed' = FALSE /\ backlog' = 0
+    /\ last' = [a |-> "restart", n |-> n, d |-> n - realCap, rt |-> Len(req)]
+    /\ UNCHANGED <<open, eof, c2, cr, dialed, errs, dbl>>
 
 Next ==
-    \/ Dial \/ PeerEOF \/ CloseConn \/ AccAcquire \/ AccAccept \/ AccError \/ LClose \/ AccCancel \/ AccAbort
-    \/ \E n \in Caps : SetMax(n)
+    \/ Dial \/ PeerEOF \/ CloseConn \/ CloseBoth \/ CloseFirstOut \/ CloseSecondOut \/ AccAcquire \/ AccAccept \/ AccError \/ LClose \/ AccCancel \/ AccAbort
+    \/ \E n \in Caps : SetMax(n) \/ Restart(n)
     \/ \E i \in Tuners : TunerRun(i) \/ TunerDone(i)
 
 Spec == Init /\ [][Next]_vars
@@ -235,6 +297,7 @@ Spec == Init /\ [][Next]_vars
 (* ---------------- properties ---------------- *)
 TypeOK ==
     /\ cur \in 0..Size /\ realCap \in 0..Size /\ open \in 0..MaxDial /\ backlog \in 0..MaxDial /\ eof \in 0..open
+    /\ c2 \in 0..MaxDbl /\ cr \in 0..MaxDbl /\ dbl \in 0..MaxDbl /\ restarts \in 0..MaxRestart
     /\ acc \in {"idle", "waiting", "have", "stopped"}
     /\ \A i \in Tuners : tst[i] \in {"none", "spawned", "waiting", "adjusted", "done"}
     /\ (acc = "waiting") = (\E k \in 1..Len(waiters) : waiters[k].who = 0)
@@ -252,16 +315,17 @@ AllDone == \A i \in 1..Len(req) : tst[i] = "done"
 NoAcceptAboveCap == C!NoAcceptAboveCap
 CapHoldsWhileUnchanged == C!CapHoldsWhileUnchanged
 NeverAboveEveryCap == C!NeverAboveEveryCap
-NoDrop == [][open' < open => last'.a = "close"]_vars       \* only a client's close ends a connection
+NoDrop == [][open' < open => last'.a \in {"close", "close2"}]_vars       \* only a client's / handler's close ends a connection
 RefinesContract == C!CSpec(Caps \cup InitCaps)
 
 (* implementation invariants: once every adjustment has completed the free tokens are exactly   *)
 (* the unused part of the configured cap (so nothing leaks and nothing is created) ...           *)
-Conserved == AllDone => Size - cur = realCap - open - Held
+(* (a connection two overlapping Close calls are busy with still holds its slot - exactly one)   *)
+Conserved == AllDone => Size - cur = realCap - open - c2 - Held
 (* ... and therefore the acceptor only waits when the cap is reached: released capacity is       *)
 (* usable again (ReleaseReusable), clients beyond the cap are held back (HeldBack)               *)
-ReusableWhenSettled == (AllDone /\ acc = "waiting") => open >= realCap
-HeldBack == (AllDone /\ open >= realCap) => acc # "have"
+ReusableWhenSettled == (AllDone /\ acc = "waiting") => open + c2 >= realCap
+HeldBack == (AllDone /\ open + c2 >= realCap) => acc # "have"
 
 (* with ordered tuners the changes complete in the order they were requested (also a same-value   *)
 (* call completes only after its predecessors): the newest fully applied cap is then simply the    *)
@@ -283,6 +347,18 @@ BurstAtCap ==
     /\ (Len(req) = 0) => last'.a \in {"dial", "acq", "accept", "setmax"}      \* the server fills up first
     /\ (Len(req') > Len(req)) => acc = "waiting"
     /\ (Len(req) > 0 /\ Len(req) < MaxResize) => Len(req') > Len(req)
+
+(* action constraint for schedule generation, profile "overlapping closes on a busy server": slots  *)
+(* come back only through connections that two overlapping Close calls are busy with (no plain      *)
+(* close, the listener stays open), so that the server is at its cap before and fills up again      *)
+(* after them; the order in which the two calls come out relative to accepts, further clients and   *)
+(* a cap change is free.                                                                            *)
+OverlappingCloses == last'.a \notin {"close", "lclose", "eof"}
+
+(* action constraint for schedule generation, profile "reload sequences": only reloads of the     *)
+(* server - run-time cap changes and restarting reloads - in every order and with every value;     *)
+(* the server harness executes them on a real HTTPServer and probes the cap it ends with           *)
+OnlyReloads == last'.a \in {"setmax", "restart"}
 
 (* action constraint for the "no overlapping resizes" configuration: the caller waits for `done` *)
 (* before it calls SetMaxCount again (what the repository's own test does)                       *)
